@@ -80,6 +80,13 @@ def gen_c18(tier, rng):
         for op in ("iseq", "ispre", "issuf"):
             cases.append(f"{op} x={hexs(xx)} y={hexs(yy)}")
             cases.append(f"{op} x={hexs(xx + xx)} y={hexs(yy)}")
+    # the second operand EXTENDS the first (the haystack is a proper prefix / suffix of the needle): must be false
+    for n in (0, 1, 2, 3, 4, 5, 8, 17):
+        x0 = base(n, 11)
+        for extra in (b"a", b"zz", base(5, 2)):
+            for op in ("ispre", "issuf", "iseq"):
+                cases.append(f"{op} x={hexs(x0)} y={hexs(x0 + extra)} ax={n % 8} ay={(n + 3) % 8}")
+                cases.append(f"{op} x={hexs(x0)} y={hexs(extra + x0)} ax={n % 8} ay={(n + 5) % 8}")
     # aliasing operands: both slices are views of ONE buffer (same start and different lengths, empty views,
     # overlapping windows of a periodic buffer, the buffer against itself)  (seeded change C18-b)
     for n in (0, 1, 2, 3, 4, 5, 7, 8, 9, 16, 17, 33):
@@ -320,6 +327,17 @@ def gen_memchr(op, tier, rng, backends=BACKENDS_X86):
             for _ in range(max(1, n // dens)):
                 h[rng.randrange(n)] = rng.choice(ns)
         cases.append(f"{op} be={be}{cpu} ns={hexs(bytes(ns))} a={rng.randrange(4096)} h={hexs(bytes(h))}")
+    # a gap, then a run of 64..300 consecutive matching bytes (whole vectors / whole unrolled blocks in which EVERY lane
+    # matches), then a gap: "any lane set" tests that are only exact for partial matches  (seeded change C06-f)
+    for j, (g1, run, g2) in enumerate([(33, 64, 33), (40, 200, 40), (64, 128, 1), (1, 128, 70), (70, 300, 70), (96, 256, 35), (35, 96, 100)]):
+        for ar in arities:
+            ns = NEEDLE_SETS[ar][0]
+            h = bytes([0x78]) * g1 + bytes(ns[i % len(ns)] for i in range(run)) + bytes([0x78]) * g2
+            for be0 in backends:
+                be = be0.split(":")[0]
+                cpu = (" cpu=" + be0.split(":")[1]) if ":" in be0 else ""
+                for a in ((0, 1, 31, 33) if not quick else ((j * 7) % 64, (j * 13 + 1) % 64)):
+                    cases.append(f"{op} be={be}{cpu} ns={hexs(bytes(ns))} a={a} h={hexs(h)}")
     # raw-pointer forms (find_raw / rfind_raw / count_raw of the One/Two/Three searchers): sub-ranges [so, eo) of a
     # buffer with matches planted just outside the range, empty ranges and start > end (must be None / 0)
     raw_be = [b for b in backends if ":" not in b and b != "top"]
@@ -506,6 +524,11 @@ def gen_iter(tier, rng, backends=BACKENDS_X86, with_count=True):
             nm2 = sum(1 for x in h2 if x in ns2)
             ops2 = "".join(rng.choice("NB" + ("S" if j % 8 == 1 else "")) for _ in range(min(nm2 + 3, 40)))
             cases.append(f"iter be={be}{cpu} ns={hexs(bytes(ns2))} a={rng.randrange(64)} h={hexs(bytes(h2))} ops={ops2}")
+        if j % 9 == 0:
+            g1, run, g2 = [(40, 200, 40), (33, 64, 70), (70, 130, 33)][(j // 9) % 3]
+            h3 = bytes([0x78]) * g1 + bytes(ns[i % len(ns)] for i in range(run)) + bytes([0x78]) * g2
+            ops3 = rng.choice(["NB" * 8, "N" * 6 + "B" * 6, "B" * 5 + "N" * 5 + "S", "NNBBNNBB" + "N" * 10])
+            cases.append(f"iter be={be}{cpu} ns={hexs(bytes(ns))} a={rng.randrange(64)} h={hexs(h3)} ops={ops3}")
         if be == "top" and j % 2 == 0:
             # memrchr_iter / memrchr2_iter / memrchr3_iter (Rev adaptor); count goes through the adaptor, so no C
             cases.append(f"iter be=top{cpu} rev=1 ns={hexs(bytes(ns))} a={rng.randrange(64)} h={hexs(bytes(h))} ops={ops.replace('C', 'S')}")
@@ -974,6 +997,14 @@ def substring_pairs(rng, quick, rev=False):
                 for kpre in (0, 1, 5, 13, 14, 15, 40):
                     pairs.append((x, b"e" * kpre + x))
                     pairs.append((x, b"e" * kpre + x[:-1] + b"e"))
+    # every binary needle up to 7 bytes against single-letter runs and doubled rotations of itself (haystacks made of the
+    # needle's own factors without containing it are where a wrong period / shift class shows as a false positive)
+    for x in words(b"ab", 6 if quick else 8, 2):
+        n = len(x)
+        for hh in (b"a" * (n + 1), b"b" * (n + 1), b"a" * (n + 2) + b"b", b"b" + b"a" * (n + 2)):
+            pairs.append((x, hh))
+        for r in range(1, n):
+            pairs.append((x, (x[r:] + x[:r]) * 2))
     sm = stale_memory_pairs(rng, quick)
     pairs += sm[::5] if quick else sm
     if not quick:
@@ -1180,6 +1211,10 @@ def gen_c14(tier, rng):
         cases += src[:: (step * 2)]
     cases += gen_c03(tier, rng)[:: (step * 2)]
     cases += gen_c04(tier, rng)[:: (step * 2)]
+    # iterator traversals (size_hint before every call, driven past the end; the empty needle) and finder histories:
+    # every iterator / finder method must return normally too  (seeded change C14-f: FindIter::size_hint)
+    cases += [c for c in gen_c08(tier, rng) if "cpu=" not in c][:: step]
+    cases += [c for c in gen_c16(tier, rng) if "cpu=" not in c][:: step]
     # both sides of min_haystack_len for every pair family
     for isa, B in (("sse2", 16), ("avx2", 16)):
         for x in (b"ab", b"abcde", bytes(range(1, 34)), b"ab" * 150):
